@@ -4,6 +4,7 @@ import (
 	"encoding/json"
 	"fmt"
 	"hash/fnv"
+	"os"
 	"runtime"
 	"sort"
 	"strings"
@@ -169,6 +170,9 @@ func finishUci(sc *Scenario, out *UciRunOut, res *RunResult) {
 	}
 	if sim.TimerFires-len(sim.StaleFires) > 0 {
 		res.Faults["F2_timeout_mid_search"] += sim.TimerFires - len(sim.StaleFires)
+	}
+	for _, a := range out.Arrivals {
+		fmt.Fprintln(os.Stderr, "ARRIVAL", a)
 	}
 	res.Signature = fmt.Sprintf("%016x", out.SigHash)
 	res.NonTrivial = len(res.Faults) > 0
